@@ -292,7 +292,7 @@ def evaluate(run, recs, sources, label):
             errkinds[(r['stage'], r['error'][:70])] += 1
             if r['stage'] == 'harness':
                 raise common.InfraError('harness error in worker: ' + r['error'])
-        for k in ('to_code_ws_only', 'to_code_not_fully_dedented', 'recursion_limit', 'api_error', 'api_tree_compared', 'case_timeout', 'api_lambda_entity'):
+        for k in ('to_code_ws_only', 'to_code_not_fully_dedented', 'recursion_limit', 'api_error', 'api_tree_compared', 'case_timeout', 'api_lambda_entity', 'wrapped_origin_shift'):
             if r['stats'].get(k):
                 stats[k] += 1
         stats['template_calls'] += r['stats'].get('ncalls', 0)
